@@ -162,6 +162,102 @@ func c20(c *core.Ctx) {
 			c.Violate("allocates", k, map[string]interface{}{"operation": "MessageIntegrity.Check", "allocs_per_run": a, "spare_capacity": spare, "message_bytes": len(buf)})
 		}
 	})
+	// one destination carried across messages of alternating address families (v6, v4, v6, ...)
+	c.SectionSerial("alternating-families", 7, func(i int64, r *gen.Rand) {
+		mk := func(ip net.IP, typ int) *stun.Message {
+			m := new(stun.Message)
+			var s stun.Setter
+			switch typ {
+			case 0:
+				s = &stun.XORMappedAddress{IP: ip, Port: 4242}
+			case 1:
+				s = &stun.MappedAddress{IP: ip, Port: 4242}
+			case 2:
+				s = &stun.AlternateServer{IP: ip, Port: 4242}
+			case 3:
+				s = &stun.ResponseOrigin{IP: ip, Port: 4242}
+			default:
+				s = &stun.OtherAddress{IP: ip, Port: 4242}
+			}
+			if typ == 5 {
+				s = setterFunc(func(m *stun.Message) error {
+					return stun.XORMappedAddress{IP: ip, Port: 1}.AddToAs(m, stun.AttrXORPeerAddress)
+				})
+			}
+			if typ == 6 {
+				s = setterFunc(func(m *stun.Message) error {
+					return stun.XORMappedAddress{IP: ip, Port: 1}.AddToAs(m, stun.AttrXORRelayedAddress)
+				})
+			}
+			_ = m.Build(stun.BindingSuccess, stun.NewTransactionIDSetter(r.TID()), s)
+
+			return m
+		}
+		typ := int(i)
+		m6, m4 := mk(net.IP(r.Bytes(16)), typ), mk(net.IP(r.Bytes(4)), typ)
+		var get func(m *stun.Message) error
+		switch typ {
+		case 0:
+			d := new(stun.XORMappedAddress)
+			get = d.GetFrom
+		case 1:
+			d := new(stun.MappedAddress)
+			get = d.GetFrom
+		case 2:
+			d := new(stun.AlternateServer)
+			get = d.GetFrom
+		case 3:
+			d := new(stun.ResponseOrigin)
+			get = d.GetFrom
+		case 4:
+			d := new(stun.OtherAddress)
+			get = d.GetFrom
+		case 5:
+			d := new(stun.XORMappedAddress)
+			get = func(m *stun.Message) error { return d.GetFromAs(m, stun.AttrXORPeerAddress) }
+		default:
+			d := new(stun.XORMappedAddress)
+			get = func(m *stun.Message) error { return d.GetFromAs(m, stun.AttrXORRelayedAddress) }
+		}
+		if err := get(m6); err != nil { // the destination has now been used for the larger (IPv6) value
+			fatalHarness("C20 alternating: " + err.Error())
+		}
+		c.Eval(1)
+		a := testing.AllocsPerRun(100, func() { _ = get(m4); _ = get(m6) })
+		if a != 0 {
+			c.Violate("allocates", fmt.Sprintf("alloc:alternating-families:%d", typ), map[string]interface{}{
+				"operation": "GetFrom into one destination, IPv4 then IPv6 message, repeated", "getter_index": typ, "allocs_per_run": a})
+		}
+	})
+	// a ForEach whose callback stops early must not cost the next decode its warm attribute list
+	c.SectionSerial("foreach-stop-then-decode", 4, func(i int64, r *gen.Rand) {
+		m := new(stun.Message)
+		setters := []stun.Setter{stun.BindingRequest, stun.NewTransactionIDSetter(r.TID())}
+		for k := 0; k < 8; k++ {
+			setters = append(setters, stun.RawAttribute{Type: stun.AttrType(0x7f00 + k%2), Value: r.Bytes(8)})
+		}
+		src := stun.MustBuild(setters...)
+		wire := append([]byte(nil), src.Raw...)
+		_ = stun.Decode(wire, m)
+		stopAt := 1 + int(i)
+		c.Eval(1)
+		a := testing.AllocsPerRun(100, func() {
+			n := 0
+			_ = m.ForEach(0x7f01, func(*stun.Message) error {
+				n++
+				if n == stopAt {
+					return errCallback
+				}
+
+				return nil
+			})
+			_ = stun.Decode(wire, m)
+		})
+		if a != 0 {
+			c.Violate("allocates", "alloc:ForEach-stopped-early;Decode", map[string]interface{}{
+				"operation": fmt.Sprintf("ForEach stopped by its callback at match %d, then Decode of the same message", stopAt), "allocs_per_run": a})
+		}
+	})
 	c.Section("messages", c.N(400, 8000), func(i int64, r *gen.Rand) {
 		if i%16 == 0 {
 			runtime.GC() // bounded memory; the discarded warm-up call of AllocsPerRun absorbs the pool refill
